@@ -121,6 +121,9 @@ def r1(F, R):
                         allowed = why
                 if "PoisonError" in e and o.kind == "panics":
                     allowed = ALLOWED[("*", "Mutex::lock", "panics")]
+                if role == "controller" and o.kind == "discarded" and path_ends(cpath, "Sender::send") and "SendError<sampler::ChainCommand>" in e:
+                    # ChainProcess::pause / resume written in place: the same send, the same reason
+                    allowed = ALLOWED[("controller", "ChainProcess::pause", "discarded")]
                 if allowed:
                     R.ok("C13-R1", key, site, "%s %s - accepted idiom: %s" % (ck, o.kind, allowed))
                 elif is_channel(e) and o.kind == "discarded" and role not in ("worker", "controller", "api"):
@@ -160,7 +163,30 @@ def r2(F, R):
         b = bs[0]
         matches = [n for n in hir_walk(b.hir["value"]) if n.get("k") == "Match" and n.get("src") == "Normal"]
         if not matches:
-            R.bad("C13-R2", "%s:no-match" % b.path, b.path, "no match on the result in %s" % name)
+            # combinator form: `join().unwrap_or_else(|payload| resume_unwind(payload))` re-raises the panic and returns the inner Result as is
+            okc = False
+            for bb_, t_ in b.calls():
+                c_ = t_["callee"]
+                if strip_generics(c_.get("path", "")).endswith("Result::unwrap_or_else") and c_.get("closures"):
+                    for cp_ in c_["closures"]:
+                        cb_ = F.bodies.get(cp_)
+                        if cb_ is None:
+                            continue
+                        for _b2, t2 in cb_.calls():
+                            if strip_generics(t2["callee"].get("path", "")).endswith("resume_unwind") and t2["args"]:
+                                v2 = cb_.value(t2["args"][0])
+                                while v2[0] in ("ref", "deref", "cast"):
+                                    v2 = v2[1]
+                                if v2[0] == "arg" and v2[1] >= 2:
+                                    okc = True
+                    outs = E.classify(b, t_["dest"]["l"])
+                    if okc and any(o.kind in ("returned", "propagated") for o in outs):
+                        R.ok("C13-R2", "%s:match#0:arm#0" % b.path, "%s @%s" % (b.path, loc(t_["span"])), "panic payload re-raised by resume_unwind, inner result returned as is")
+                        R.ok("C13-R2", "%s:match#0:arm#1" % b.path, "%s @%s" % (b.path, loc(t_["span"])), "(same call) Ok(inner) is the return value")
+                    else:
+                        okc = False
+            if not okc:
+                R.bad("C13-R2", "%s:no-match" % b.path, b.path, "no match on the result in %s" % name)
         for mi, m in enumerate(matches):
             sty = m.get("scrut_ty", "")
             if "Result<" not in sty:
@@ -354,6 +380,7 @@ DISCARDS = {
     ("Sampler::new", "finalize_many"): "chains could not be started: the start error is returned, the clean-up result is secondary",
     ("Sampler::new", "pause"): "controller: pause() of a chain fails only when that chain has finished",
     ("Sampler::new", "resume"): "controller: resume() of a chain fails only when that chain has finished",
+    ("Sampler::new", "send<ChainCommand>"): "controller: the same Pause/Resume send written in place (fails only when that chain has finished)",
 }
 
 
@@ -406,6 +433,8 @@ def r6(F, R):
             n += 1
             d = ds[0]
             what = d[3]["callee"].get("name") if d[0] == "call" else "value"
+            if what == "send" and "SendError<sampler::ChainCommand>" in ty:
+                what = "send<ChainCommand>"
             # enclosing named function (closures report their parent)
             fn = b.path
             while "::{closure" in fn:
